@@ -188,7 +188,9 @@ static void doRun(const Cfg& cf, Run& r, vf::Case& c) {
     r.slope = slope; r.test = test;
     r.opt = std::make_shared<NewtonBacktrackOneDimension>(r.obj, slope, test);   // same call as OneDimensionOptimizationTools::lineSearch
   } else {
-    r.obj = std::make_shared<Obj>(cf.spec, cf.start);
+    // variant >= 10: the objective is handed over sitting at its minimiser (as after an earlier converged run), not at the requested start:
+    // init() must move it to the start before anything is evaluated or differentiated
+    r.obj = std::make_shared<Obj>(cf.spec, cf.var >= 10 ? cf.spec.m : cf.start);
     r.opt = makeOpt(cf.opt, r.obj, n);
   }
   AbstractOptimizer& o = *r.opt;
@@ -199,12 +201,12 @@ static void doRun(const Cfg& cf, Run& r, vf::Case& c) {
   o.addOptimizationListener(std::make_shared<Lis>(&r, cf.opt));
   double s0 = cf.start[0];
   if (cf.opt == BRENT || cf.opt == GOLDEN) {
-    if (cf.var == 0) { if (cf.opt == BRENT) dynamic_cast<BrentOneDimension&>(o).setInitialInterval(s0, s0 + 0.01); else dynamic_cast<GoldenSectionSearch&>(o).setInitialInterval(s0, s0 + 0.01); }
+    if (cf.var % 10 == 0) { if (cf.opt == BRENT) dynamic_cast<BrentOneDimension&>(o).setInitialInterval(s0, s0 + 0.01); else dynamic_cast<GoldenSectionSearch&>(o).setInitialInterval(s0, s0 + 0.01); }
     else { if (cf.opt == BRENT) dynamic_cast<BrentOneDimension&>(o).setInitialInterval(s0 - 1, s0 + 1); else dynamic_cast<GoldenSectionSearch&>(o).setInitialInterval(s0 - 1, s0 + 1); }
   }
   if (cf.opt == BRENT_IN) {
     auto& b = dynamic_cast<BrentOneDimension&>(o); b.setBracketing(BrentOneDimension::BRACKET_INWARD);
-    if (cf.var == 0) b.setInitialInterval(BOXLO, BOXHI); else b.setInitialInterval(s0 - 5, s0 + 5);
+    if (cf.var % 10 == 0) b.setInitialInterval(BOXLO, BOXHI); else b.setInitialInterval(s0 - 5, s0 + 5);
   }
   ParameterList pl;
   if (lineMode) pl.addParameter(Parameter("x", 0.0));
@@ -556,9 +558,10 @@ int main(int argc, char** argv) {
         s.name = base + "objectives" + str(s.objs.size()) + "xstarts" + str(starts.size()) + "xtol4xvariants" + str(vars.size()) + ":unconstrained:budget" + str(BIG);
         addSlice(R, s);
       }
-      if (opt != NBOD) {  // slice 2: constraint sets x policies
-        Slice s; s.opt = opt; s.n = n; s.objs = objectives(n, 1, cap); s.starts = starts; s.cons = {0, 1, 2, 3, 4, 5}; s.pols = {0, 1, 2}; s.tols = th ? std::vector<int>{1, 3} : std::vector<int>{1}; s.buds = {BIG}; s.vars = vars;
-        s.name = base + "objectives" + str(s.objs.size()) + "xstarts" + str(starts.size()) + "xcons6xpolicy3xtol" + str(s.tols.size()) + "xvariants" + str(vars.size()) + ":budget" + str(BIG);
+      if (opt != NBOD) {  // slice 2: constraint sets x policies x (objective handed over at the start | at its minimiser)
+        std::vector<int> vars2 = vars; for (int v : vars) vars2.push_back(v + 10);
+        Slice s; s.opt = opt; s.n = n; s.objs = objectives(n, 1, cap); s.starts = starts; s.cons = {0, 1, 2, 3, 4, 5}; s.pols = {0, 1, 2}; s.tols = th ? std::vector<int>{1, 3} : std::vector<int>{1}; s.buds = {BIG}; s.vars = vars2;
+        s.name = base + "objectives" + str(s.objs.size()) + "xstarts" + str(starts.size()) + "xcons6xpolicy3xtol" + str(s.tols.size()) + "xvariants" + str(s.vars.size()) + ":budget" + str(BIG);
         addSlice(R, s);
       }
       {  // slice 3: small budgets
